@@ -12,7 +12,8 @@ def gen(rng, tier):
     for _ in range(N):
         G, fam = common.random_connected_graph(rng, 1, 6 if tier == "quick" else 8, large_ok=True)
         n = G["n"]; D = common.random_divisor(rng, G)
-        if rng.random() < 0.15: G, D = common.thin_cut_game(rng); n = G["n"]; fam = "thincut"      # dense clusters joined by a thin cut, few chips: edge connectivity below the minimum valence
+        if rng.random() < 0.15: G, D = common.thin_cut_game(rng); n = G["n"]; fam = "thincut"
+        if rng.random() < 0.18: G = common.midsize_multigraph(rng); n = G["n"]; D = common.random_divisor(rng, G); fam = "midsize"      # dense clusters joined by a thin cut, few chips: edge connectivity below the minimum valence
         if rng.random() < 0.08 and G["edges"]: G, D = common.scale_game(rng, G, D); fam = fam + "*2^k"
         sigma = [rng.randint(-3, 3) if rng.random() < 0.7 else rng.randint(-40, 40) for _ in range(n)]
         c = {"G": G, "D": D, "sigma": sigma, "q": rng.randrange(n), "fam": fam, "s": rng.randrange(1 << 30)}
